@@ -343,8 +343,11 @@ func c16Oracle(c *CancelCase) (msg string) {
 		if m := wait(fmt.Sprintf("the call did not return within 20 s after the context ended while resolver #%d (%s) is still blocked: it waits for its resolvers", c.CancelAt, q.Gates[maxInt(c.CancelAt, 0)])); m != "" {
 			return m
 		}
-		if observe[c.CancelAt] && c.CancelAt >= 0 {
-			// the blocked resolver noticed the cancellation itself: completion races the context
+		if (observe[c.CancelAt] && c.CancelAt >= 0) || (c.CancelAt == -1 && observe[0]) {
+			// the blocked resolver noticed the cancellation itself: completion races the context. The same holds when
+			// the context ended before the call and the first gated resolver watches it: it returns at once, the
+			// execution may finish before the caller's wait on the context is reached, and then the complete response
+			// (with that resolver's own error) is one of the two answers the property allows
 			if !isCtxError(res) {
 				if m := isComplete(res); m != "" {
 					return "after cancellation the caller got neither the context error nor a complete response: " + m
